@@ -208,10 +208,13 @@ func init() {
 			nAlign := 4
 			if x.tier == "thorough" {
 				nAlign = 64
+				if l > 512 {
+					nAlign = 8 // every alignment up to 512 bytes; beyond, eight alignments that rotate with the length
+				}
 			}
 			for a := 0; a < nAlign; a++ {
 				al := a
-				if x.tier != "thorough" {
+				if nAlign != 64 {
 					al = (l*7 + a*17) % 64
 				}
 				placements = append(placements, struct {
